@@ -249,8 +249,9 @@ struct Harness {
     MemoryAccountant* accountant;
     SideAllocator side;
     bool c06;
+    bool threadsafe;                 // the g* operations use the thread-safe overloads
 
-    Harness(bool c06_) : det(0), sink(0), period(mem_leak_period_disabled), accountant(0), c06(c06_) {}
+    Harness(bool c06_) : det(0), sink(0), period(mem_leak_period_disabled), accountant(0), c06(c06_), threadsafe(false) {}
 
     void init() {
         MemoryLeakWarningPlugin::turnOffNewDeleteOverloads();
@@ -545,6 +546,11 @@ struct Harness {
                 vh::emit("> invalidate %lu", addr);
                 det->invalidateMemory(ptr_of(addr));
             }
+            else if (o == "overloads" && w.size() >= 2 && c06 && (w[1] == "threadsafe" || w[1] == "plain")) {
+                // which set of overloads the g* operations switch on (the thread-safe ones take the detector's mutex)
+                threadsafe = w[1] == "threadsafe";
+                vh::emit("> overloads %s", w[1].c_str());
+            }
             else if (o == "setcur" && w.size() >= 3 && c06) {
                 // setcur new|newarray|malloc <alloc>
                 int ai; if (!alloc_index(w[2], ai, true)) { vh::emit("> skip"); continue; }
@@ -597,7 +603,8 @@ struct Harness {
     // route the real overloads to the detector under test for the duration of one call
     void global_on() {
         MemoryLeakWarningPlugin::setGlobalDetector(det, &reporter);
-        MemoryLeakWarningPlugin::turnOnDefaultNotThreadSafeNewDeleteOverloads();
+        if (threadsafe) MemoryLeakWarningPlugin::turnOnThreadSafeNewDeleteOverloads();
+        else MemoryLeakWarningPlugin::turnOnDefaultNotThreadSafeNewDeleteOverloads();
         g_in_det = true;
     }
     void global_off() {
